@@ -22,8 +22,20 @@ import (
 	"golang.org/x/tools/go/ssa/ssautil"
 )
 
-const repoDir = "/repo"
+// repoDir is the tree under check and outDir receives build output, evidence and replays.
+// Both are fixed for every registered command; VERIF_REPO / VERIF_OUTDIR exist only so that
+// seeded changes can be tried on scratch copies in parallel while developing harnesses.
+var repoDir = envOr("VERIF_REPO", "/repo")
+var outDir = envOr("VERIF_OUTDIR", "/verif")
+
 const verifDir = "/verif"
+
+func envOr(k, d string) string {
+	if v := os.Getenv(k); v != "" {
+		return v
+	}
+	return d
+}
 
 type HarnessResult struct {
 	Name         string          `json:"name"`
@@ -223,8 +235,8 @@ func runHarness(prog *ssa.Program, pkg *ssa.Package, fn *ssa.Function, tier int,
 			e.debug = opts.debug
 			if opts.debug {
 				first.Do(func() {
-					os.MkdirAll(filepath.Join(verifDir, "build"), 0o755)
-					if f, err := os.Create(filepath.Join(verifDir, "build", fn.Name()+".smt2")); err == nil {
+					os.MkdirAll(filepath.Join(outDir, "build"), 0o755)
+					if f, err := os.Create(filepath.Join(outDir, "build", fn.Name()+".smt2")); err == nil {
 						e.solver.log = f
 					}
 				})
@@ -482,6 +494,7 @@ type nativeCase struct {
 	Harness  string     `json:"harness"`
 	Vector   []VecEntry `json:"vector"`
 	Realtime bool       `json:"realtime"`
+	Tier     int        `json:"tier"`
 }
 
 type nativeOut struct {
@@ -499,7 +512,7 @@ func goEnv() []string {
 }
 
 func runNative(cases []nativeCase, names []string, tag string) ([]nativeOut, string, error) {
-	buildDir := filepath.Join(verifDir, "build", tag)
+	buildDir := filepath.Join(outDir, "build", tag)
 	os.MkdirAll(buildDir, 0o755)
 	// registry
 	var sb strings.Builder
@@ -558,6 +571,7 @@ type replayDoc struct {
 	Where    string     `json:"where"`
 	Vector   []VecEntry `json:"vector"`
 	Native   string     `json:"native_outcome"`
+	Tier     int        `json:"tier"`
 }
 
 func replayFile(path string) int {
@@ -576,7 +590,7 @@ func replayFile(path string) int {
 		fmt.Fprintln(os.Stderr, err)
 		return 2
 	}
-	outs, log, err := runNative([]nativeCase{{d.Harness, d.Vector, true}}, allHarnessNames(pkg), "replay")
+	outs, log, err := runNative([]nativeCase{{d.Harness, d.Vector, true, d.Tier}}, allHarnessNames(pkg), "replay")
 	if err != nil {
 		fmt.Fprintln(os.Stderr, err, log)
 		return 2
@@ -597,7 +611,7 @@ func finish(prop string, tier, seed int, partial bool, results []HarnessResult, 
 	tierName := []string{"quick", "thorough"}[tier]
 	exit := 0
 	if !partial {
-		os.RemoveAll(filepath.Join(verifDir, "replays", prop))
+		os.RemoveAll(filepath.Join(outDir, "replays", prop))
 	}
 	internal := false
 	// collect native cases: validations + violation replays
@@ -612,15 +626,15 @@ func finish(prop string, tier, seed int, partial bool, results []HarnessResult, 
 	for i := range results {
 		r := &results[i]
 		for j := range r.Validations {
-			cases = append(cases, nativeCase{r.Name, r.Validations[j].Vector, false})
+			cases = append(cases, nativeCase{r.Name, r.Validations[j].Vector, false, tier})
 			refs = append(refs, caseRef{res: r, val: &r.Validations[j]})
 		}
 		for j := range r.Violations {
-			cases = append(cases, nativeCase{r.Name, r.Violations[j].Vector, true})
+			cases = append(cases, nativeCase{r.Name, r.Violations[j].Vector, true, tier})
 			refs = append(refs, caseRef{res: r, viol: &r.Violations[j]})
 		}
 		for j := range r.Known {
-			cases = append(cases, nativeCase{r.Name, r.Known[j].Vector, true})
+			cases = append(cases, nativeCase{r.Name, r.Known[j].Vector, true, tier})
 			refs = append(refs, caseRef{res: r, viol: &r.Known[j], knwn: true})
 		}
 		if r.EngineError != "" {
@@ -667,7 +681,7 @@ func finish(prop string, tier, seed int, partial bool, results []HarnessResult, 
 					}
 				case ref.viol != nil:
 					reproduced := o.Outcome == "assert" || o.Outcome == "panic"
-					d := replayDoc{Property: prop, Harness: ref.res.Name, Kind: ref.viol.Kind, Msg: ref.viol.Msg, Where: ref.viol.Where, Vector: ref.viol.Vector, Native: o.Outcome + ": " + o.Msg}
+					d := replayDoc{Tier: tier, Property: prop, Harness: ref.res.Name, Kind: ref.viol.Kind, Msg: ref.viol.Msg, Where: ref.viol.Where, Vector: ref.viol.Vector, Native: o.Outcome + ": " + o.Msg}
 					if ref.knwn {
 						what := ref.viol.Msg
 						for _, k := range known {
@@ -686,7 +700,7 @@ func finish(prop string, tier, seed int, partial bool, results []HarnessResult, 
 					}
 					if reproduced {
 						h := sha256.Sum256([]byte(fmt.Sprintf("%v", ref.viol.Vector)))
-						dir := filepath.Join(verifDir, "replays", prop)
+						dir := filepath.Join(outDir, "replays", prop)
 						os.MkdirAll(dir, 0o755)
 						path := filepath.Join(dir, fmt.Sprintf("%s-%s.json", ref.res.Name, hex.EncodeToString(h[:4])))
 						b, _ := json.MarshalIndent(d, "", " ")
@@ -813,9 +827,9 @@ func finish(prop string, tier, seed int, partial bool, results []HarnessResult, 
 		"violations": violationsConfirmed,
 	}
 	if !partial {
-		os.MkdirAll(filepath.Join(verifDir, "evidence"), 0o755)
+		os.MkdirAll(filepath.Join(outDir, "evidence"), 0o755)
 		b, _ := json.MarshalIndent(ev, "", " ")
-		os.WriteFile(filepath.Join(verifDir, "evidence", prop+".json"), b, 0o644)
+		os.WriteFile(filepath.Join(outDir, "evidence", prop+".json"), b, 0o644)
 	}
 	for _, l := range outLines {
 		fmt.Println(l)
